@@ -303,7 +303,7 @@ def gen_nearmiss(rng):
   """-> (source, description).  half of them are exactly well-typed, the others off by one somewhere"""
   w = rng.choice([1, 2, 3, 4, 7, 8, 9, 16, 31, 32, 33, 48, 49, 50, 63, 64, 65, 100])
   d = rng.choice([0, 0, 1, -1]) if w > 1 else rng.choice([0, 1])
-  shape = rng.randrange(32)
+  shape = rng.randrange(33)
   itbl = [1, 1, 0, 1]
   wa, wb, wo = w, w + d, w
   lit_k = rng.choice([w - 1, w, w + 1, w, w])
@@ -446,6 +446,15 @@ def gen_nearmiss(rng):
     w = wa = wb = wo = rng.choice([8, 8, 7, 9, 4, 16, 12])
     stmt = rng.choice(["s.o @= s.ps", "s.o @= s.ps", f"s.o[0:{min(w, 8)}] @= s.ps" if w != 8 else "s.o @= s.ps"])
     lit = "vector-from-struct"; d = 0 if (w == 8 or "[0:8]" in stmt) else 1
+  elif shape == 32:
+    # a constant sub-expression of two unsized integers whose VALUE needs more bits than either operand (255 + 1, 15 * 15) next to a
+    # sized operand: the folded literal is as wide as its value needs
+    wb = w
+    top_ = (1 << w) - 1
+    ce, cv = rng.choice([(f"{top_} + 1", top_ + 1), (f"{top_} * 2", top_ * 2), (f"{max(1, top_ >> 1)} + 1", max(1, top_ >> 1) + 1), (f"{top_} - 1", top_ - 1),
+                         (f"{1 << (w // 2)} * {1 << (w - w // 2)}", 1 << w), (f"{top_} | {1 << w}", top_ | (1 << w))])
+    stmt = rng.choice([f"s.o @= s.a {op} ({ce})", f"s.o1 @= s.a {cmp_} ({ce})", f"s.o @= ({ce}) {op} s.a"])
+    lit = "folded-constant:" + ("fits" if cv <= top_ else "too-wide"); d = 0 if cv <= top_ else 1
   elif shape == 24:
     # an element of a table of SIZED constants picked by a constant expression ( s.tbl[s.N - 1] ): it is wb bits wide, full stop
     ix = rng.choice(["s.N - 1", "s.N", "0 + 1", "1"])
@@ -502,7 +511,7 @@ def run_nearmiss(sh, case):
     sh.count("nearmiss_cases"); sh.count("evaluations")
     sh.count("nearmiss_accepted" if accepted else "nearmiss_rejected")
     if desc["shape"] == 25: sh.count("int_table_signal_index:" + str(desc["literal"]) + (":accepted" if accepted else ":rejected"))
-    if desc["shape"] in (27, 28, 29, 31): sh.count(str(desc["literal"]) + (":accepted" if accepted else ":rejected") + (":raises" if err is not None and is_width_error(err) else ""))
+    if desc["shape"] in (27, 28, 29, 31, 32): sh.count(str(desc["literal"]) + (":accepted" if accepted else ":rejected") + (":raises" if err is not None and is_width_error(err) else ""))
     if desc["shape"] == 26:
       sh.count("part_select:" + str(desc["literal"]) + (":accepted" if accepted else ":rejected"))
       if accepted and err is not None and not is_width_error(err): sh.count("part_select_other_error:" + type(err).__name__)
